@@ -29,7 +29,8 @@ type Op struct {
 	Race  []RaceOp `json:"race,omitempty"`
 	Post  []string `json:"post,omitempty"`
 	Iter  *IterOp  `json:"iter,omitempty"`
-	OptN  []Opt    `json:"optN,omitempty"` // reopen options of the lock-step followers (C14)
+	OptN  []Opt    `json:"optN,omitempty"`  // reopen options of the lock-step followers (C14)
+	Reuse bool     `json:"reuse,omitempty"` // backup: into the directory of an earlier backup, if every file in it will be overwritten
 }
 
 // RaceOp is a write executed from inside Merge's scan loop, at its At-th
@@ -159,6 +160,7 @@ type Features struct {
 	Tears                                             int
 	Backups                                           int
 	BackupRechecks                                    int
+	BackupReuse                                       int // backups taken into the directory of an earlier backup
 	BackupWithHint                                    int
 	WritesAfterBackup                                 int
 	IterNonTrivial                                    int // sessions over keys in >= 2 shards with a Seek or a Rewind after Next
@@ -1275,6 +1277,33 @@ func (r *Runner) execBackup(op *Op) *Fail {
 	}
 	r.F.Backups++
 	dst := filepath.Join(r.Base, fmt.Sprintf("backup-%d", r.F.Backups))
+	if op.Reuse && len(r.kept) > 0 {
+		// "backups repeated during continued writing" into ONE directory: sound whenever every file the directory
+		// holds will be written again (its names are a subset of the source's names); a directory with files the
+		// source no longer has (after an adopted merge) is not reused - what happens to those files is not stated
+		old := r.kept[len(r.kept)-1]
+		src := map[string]bool{}
+		ents, _ := os.ReadDir(r.Dir)
+		for _, e := range ents {
+			src[e.Name()] = true
+		}
+		subset := true
+		ents, _ = os.ReadDir(old.dir)
+		for _, e := range ents {
+			if e.Name() != ".lock" && !src[e.Name()] {
+				subset = false
+			}
+		}
+		if subset {
+			r.kept = r.kept[:len(r.kept)-1]
+			dst = old.dir
+			_ = os.Remove(filepath.Join(dst, ".lock")) // the lock file of the harness's own Open of that copy
+			if r.IO != nil {
+				r.IO.Forget(dst)
+			}
+			r.F.BackupReuse++
+		}
+	}
 	if err := r.DB.Backup(dst); err != nil {
 		return failf("backup-error", "Backup() = %v", err)
 	}
@@ -1537,6 +1566,7 @@ func (r *Runner) AddLabels() {
 	lab(r.F.Backups > 0, "backup")
 	lab(r.F.BackupRechecks > 0, "backup-re-examined-after-later-source-activity")
 	lab(r.F.Backups > 1, "several-backups")
+	lab(r.F.BackupReuse > 0, "backup-into-the-directory-of-an-earlier-backup")
 	lab(r.F.BackupWithHint > 0, "backup-with-hint-file")
 	lab(r.F.WritesAfterBackup > 0, "write-after-backup")
 	for k, n := range r.F.IterLabels {
